@@ -1,0 +1,19 @@
+//go:build verif
+
+package pqueue
+
+// VerifSnapshot returns copies of the active and queued entries, in order (verification hook).
+func (q *Queue[T]) VerifSnapshot() (active, queued []T) {
+	if q == nil {
+		return nil, nil
+	}
+	q.mu.Lock()
+	defer q.mu.Unlock()
+	for _, p := range q.active {
+		active = append(active, *p)
+	}
+	for _, p := range q.queued {
+		queued = append(queued, *p)
+	}
+	return active, queued
+}
